@@ -32,6 +32,35 @@ def default_constructible():
     return out
 
 
+def class_vs_functional(rep, spec: Spec, cfg: dict, bs):
+    """the property's oracle on one stream of batches: the real class fed `bs` vs the real functional on the concatenation.
+    "skip" when the case is outside the comparison, None when the property holds, else (signature, what, replay dict).
+    Used by the sweep and by replay()."""
+    cb = cat_batches(spec, bs)
+    if cb is None or (spec.kind == "retrieval" and cfg.get("num_queries", 1) != 1):
+        return "skip"
+    cls_out = observe(fed(spec, cfg, bs))
+    fr = call_real(lambda: spec.functional(cfg, cb))
+    fn_out = ("ok", fr[1]) if fr[0] == "ok" else ("err", fr[1], fr[2])
+    if fn_out[0] == "ok" and any((~torch.isfinite(t.to(torch.float64))).any() for t in fn_out[1]):
+        # functional value undefined (zero denominator) somewhere: the property exempts it; compare the defined entries only
+        if rep is not None:
+            rep.count("functional-undefined")
+        if cls_out[0] != "ok" or len(cls_out[1]) != len(fn_out[1]) or any(a.numel() != b.numel() for a, b in zip(cls_out[1], fn_out[1])):
+            return None
+        masked_c, masked_f = [], []
+        for a, b in zip(cls_out[1], fn_out[1]):
+            m = torch.isfinite(b.reshape(-1).to(torch.float64))
+            masked_c.append(a.reshape(-1)[m]); masked_f.append(b.reshape(-1)[m])
+        cls_out, fn_out = ("ok", masked_c), ("ok", masked_f)
+    if not same_obs(cls_out, fn_out, spec.tol, shape=False):
+        return (f"C03|{spec.name}|class-differs-from-functional",
+                f"{spec.name}{public_cfg(cfg)}: class gives {obs_json(cls_out)}, functional on the concatenation gives {obs_json(fn_out)}",
+                {"class": spec.name, "cfg": public_cfg(cfg), "batches": [b.describe() for b in bs],
+                 "class_result": obs_json(cls_out), "functional_result": obs_json(fn_out)})
+    return None
+
+
 def sweep(rep: Report, rng: Rng, reps: int, deadline: float):
     for spec in SPECS:
         if spec.functional is None or spec.cat is None or spec.kind == "window":
@@ -42,30 +71,14 @@ def sweep(rep: Report, rng: Rng, reps: int, deadline: float):
                     rep.notes.append("budget exhausted"); return
                 cfg = fresh_cfg(cfg0)
                 bs = gen_stream(spec, cfg, rng, rng.randint(1, 5))
-                cb = cat_batches(spec, bs)
-                if cb is None or (spec.kind == "retrieval" and cfg.get("num_queries", 1) != 1):
+                if cat_batches(spec, bs) is None or (spec.kind == "retrieval" and cfg.get("num_queries", 1) != 1):
                     continue
-                cls_out = observe(fed(spec, cfg, bs))
-                fr = call_real(lambda: spec.functional(cfg, cb))
-                fn_out = ("ok", fr[1]) if fr[0] == "ok" else ("err", fr[1], fr[2])
                 rep.count(f"class:{spec.name}")
                 rep.case(nontrivial_key=(spec.name, repr(public_cfg(cfg)), repr([b.describe() for b in bs])) if len(bs) >= 2 else None,
                          sample={"class": spec.name, "cfg": public_cfg(cfg), "batches": [b.describe() for b in bs]} if rep.evaluations % 307 == 0 else None)
-                if fn_out[0] == "ok" and any((~torch.isfinite(t.to(torch.float64))).any() for t in fn_out[1]):
-                    # functional value undefined (zero denominator) somewhere: the property exempts it; compare the defined entries only
-                    rep.count("functional-undefined")
-                    if cls_out[0] != "ok" or len(cls_out[1]) != len(fn_out[1]) or any(a.numel() != b.numel() for a, b in zip(cls_out[1], fn_out[1])):
-                        continue
-                    masked_c, masked_f = [], []
-                    for a, b in zip(cls_out[1], fn_out[1]):
-                        m = torch.isfinite(b.reshape(-1).to(torch.float64))
-                        masked_c.append(a.reshape(-1)[m]); masked_f.append(b.reshape(-1)[m])
-                    cls_out, fn_out = ("ok", masked_c), ("ok", masked_f)
-                if not same_obs(cls_out, fn_out, spec.tol, shape=False):
-                    rep.violation(f"C03|{spec.name}|class-differs-from-functional",
-                                  f"{spec.name}{public_cfg(cfg)}: class gives {obs_json(cls_out)}, functional on the concatenation gives {obs_json(fn_out)}",
-                                  {"class": spec.name, "cfg": public_cfg(cfg), "batches": [b.describe() for b in bs],
-                                   "class_result": obs_json(cls_out), "functional_result": obs_json(fn_out)})
+                v = class_vs_functional(rep, spec, cfg, bs)
+                if v not in (None, "skip"):
+                    rep.violation(*v)
 
 
 def run(rep: Report):
@@ -142,3 +155,31 @@ _run_streams = run
 def run(rep: Report):  # noqa: F811
     defaults_crosscheck(rep)
     _run_streams(rep)
+
+
+# ------------------------------------------------------------------ replay
+
+def replay(payload) -> bool:
+    """True iff the property holds on the recorded case: a stream of batches (class vs functional on the concatenation,
+    judged by `class_vs_functional`, the sweep's oracle) or a default construction (the constructor call is repeated)."""
+    rp = payload.get("replay") or {}
+    if payload.get("kind", "failing-input") != "failing-input" or "class" not in rp:
+        raise ValueError(f"nothing to replay: payload kind {payload.get('kind')!r} carries no concrete input")
+    name = rp["class"]
+    if "batches" in rp:
+        from ..registry import BY_NAME, Batch
+        spec = BY_NAME[name]
+        v = class_vs_functional(None, spec, dict(rp["cfg"]), [Batch.from_describe(d) for d in rp["batches"]])
+        if v == "skip":
+            raise ValueError("nothing to replay: the recorded batches are not concatenable for this class/configuration")
+        if v is not None:
+            print(f"replay: {v[0]}: {v[1]}"[:600])
+        return v is None
+    # default construction: {"class", "error"} (no arguments) or {"class", "kwargs", "error"} (required ones at their smallest valid value)
+    cls = dict(defaults_tr.classes()).get(name) or getattr(M, name)
+    try:
+        cls(**(rp.get("kwargs") or {}))
+    except Exception as e:  # noqa: BLE001
+        print(f"replay: {name}({rp.get('kwargs') or {}}) raises {e!r}"[:300])
+        return False
+    return True
